@@ -242,7 +242,14 @@ namespace sqf::runtime
         sqf::runtime::instruction_set::iterator peek() const { bool flag; return peek(flag); }
         sqf::runtime::instruction_set::iterator peek(bool& success) const
         {
-            auto pos = m_position >= m_instruction_set.size() ? m_instruction_set.size() - 1 : m_position + 1;
+            if (m_instruction_set.empty())
+            {
+                success = false;
+                return m_instruction_set.end();
+            }
+            // a frame that has not started yet (position_invalid) executes its first instruction next
+            auto pos = m_position == position_invalid ? 0 :
+                m_position >= m_instruction_set.size() ? m_instruction_set.size() - 1 : m_position + 1;
             auto it = m_instruction_set.begin() + pos;
             success = it != m_instruction_set.end();
             return it;
